@@ -266,6 +266,7 @@ type Setup struct {
 	PtrElems bool   // the slice is []*Owner instead of []Owner
 	Preload  bool   // in-memory owners start with seeded links, loaded with Preload
 	ByValue  bool   // slice mode: db.Model(owners) instead of db.Model(&owners)
+	PtrPtr   bool   // single mode: owner := &Owner{..}; db.Model(&owner) - a pointer to the pointer variable (**Owner)
 	Cfg      Cfg    // gorm.Config / dialector switches of the handle
 	// seeded links (plain SQL, before the first operation)
 	FK    map[string][]string  // relation -> holder of target 1..poolSize ("" | "owners/2" | "others/1")
@@ -374,6 +375,9 @@ func (su Setup) String() string {
 	}
 	if su.ByValue {
 		mode += "(by value)"
+	}
+	if su.PtrPtr {
+		mode += "(**Owner)"
 	}
 	mode += " " + su.Cfg.String()
 	return fmt.Sprintf("kind=%s owners=%d mem=%v mode=%s preload=%v seed{%s boss=%v chief=%v guild=%v tags=%v langs=%v refs=%v}",
@@ -943,6 +947,8 @@ func (h *hist) close() { h.d.Close() }
 // modelArg is what goes into db.Model(...): always the same object(s) (domain note D1).
 func (h *hist) modelArg() interface{} {
 	switch {
+	case !h.su.Slice && h.su.PtrPtr:
+		return &h.single // **Owner: Create/First/Updates accept it, Association dereferences every level
 	case !h.su.Slice:
 		return h.single
 	case h.su.PtrElems && h.su.ByValue:
@@ -1459,6 +1465,8 @@ func genSetup(rt *rapid.T) Setup {
 	su.Preload = rapid.IntRange(0, 3).Draw(rt, "preload") == 0
 	if su.Slice {
 		su.ByValue = rapid.IntRange(0, 2).Draw(rt, "byValue") == 0
+	} else {
+		su.PtrPtr = rapid.IntRange(0, 3).Draw(rt, "ptrptr") == 0
 	}
 	su.Cfg = Cfg{
 		SkipTx:      rapid.IntRange(0, 3).Draw(rt, "cfg.skiptx") == 0,
@@ -1985,6 +1993,9 @@ func TestC12(t *testing.T) {
 		}
 		if su.ByValue {
 			cl = append(cl, "owners:slice-by-value")
+		}
+		if su.PtrPtr {
+			cl = append(cl, "owner:pointer-to-pointer(**T)")
 		}
 		if su.Cfg.SkipTx {
 			cl = append(cl, "cfg:SkipDefaultTransaction")
